@@ -22,6 +22,12 @@ from fractions import Fraction
 
 from common import err_kind, frac_token, lst
 
+# predicates that the UNCHANGED /repo fails (reported to the maintainer, not yet in known_findings.json): turned into notes
+#   C11:quantis-lm1-left-not-rejected-early — quantis_swap_zero has no λ₋₁ early reject (Lean:
+#   Infretis.C11.quantis_lm1_left_not_rejected_counterexample); check_config means to forbid quantis + lambda_minus_one but
+#   `if quantis and lambda_minus_one:` lets lambda_minus_one = 0.0 through (setup.py:236)
+PENDING_FINDINGS = {"C11:quantis-lm1-left-not-rejected-early"}
+
 NEG = -10**6     # stands for -inf on the model side (below every order value used here)
 PAD = 9            # length of the padding that keeps a scripted MD program "running"
 
@@ -840,6 +846,8 @@ def quantis_cases(ctx):
         if structured:
             npre = rng.randint(1, 3)
             o0 = [1] + [rng.choice((-1, -2, 0)) for _ in range(npre - 1)] + [rng.choice((-1, -1, -2, 0))] + [rng.choice((1, 2, 0))]
+            if vn != "plain" and rng.random() < 0.15:
+                o0[-1] = rng.choice((-3, -4))      # a [0-] path that ENDED ON THE LEFT (λ₋₁ variant) handed to QuanTIS
             o1 = [rng.choice((-1, -1, -2, 0, -4))] + [rng.choice((1, 2, 0))] + [rng.choice((1, 2)) for _ in range(rng.randint(0, 2))] + [rng.choice((-1, 4))]
             A = [rng.choice((1, 1, 1, 2, 0, -1, -4))]
             B = [rng.choice((1, 1, 1, 2, 0, -1, -4, 4, 4))]
@@ -866,7 +874,8 @@ def quantis_cases(ctx):
         beta0 = rng.choice((Fraction(1), Fraction(1, 2), Fraction(2), Fraction(1, 4)))
         beta1 = rng.choice((Fraction(1), Fraction(1, 2), Fraction(2)))
         base = {"kind": "quantis", "tag": "quantis-" + ("structured" if structured else "malformed"),
-                "e0": ens(i0, m0, sc), "e1": ens(i1, m1, (True, False)), "old0": old0, "old1": old1,
+                "e0": ens(i0, m0, sc, wf=(k % 11 == 3)), "e1": ens(i1, m1, (True, False), wf=(k % 13 == 5)),
+                "old0": old0, "old1": old1,       # 'wf' in [0-]/[0+]: QuanTIS only warns and goes on (tis.py:1139-1141)
                 "scripts": scripts, "beta0": beta0, "beta1": beta1, "aa": False, "xi": Fraction(1, 2)}
         cases.append(decorate(rng, base))
     return cases
@@ -1330,6 +1339,15 @@ def _check_case(ctx, c, r):
             ctx.fail("C11:lm1-left-not-rejected-early",
                      f"[0-] path ending left of λ₋₁: accept={r['accept']} status={r['status']} engine requests={r['reqs']}", rep)
         return "early-0-L"
+    if kind == "quantis" and e0["sc"] == (True, True) and ordered(e0) and len(c["old0"]) >= 2 and c["old1"] \
+            and c["old0"][-1][0] <= e0["i"][0] and (r["reqs"] or r["accept"]):
+        sig = "C11:quantis-lm1-left-not-rejected-early"
+        msg = (f"QuanTIS, λ₋₁ variant, [0-] path ending left of λ₋₁: accept={r['accept']} status={r['status']} "
+               f"engine requests={len(r['reqs'])} (retis_swap_zero rejects this path '0-L' without propagation)")
+        if sig in PENDING_FINDINGS:
+            ctx.hit(f"pending:{sig}" + (":accepted" if r["accept"] else ""))
+        else:
+            ctx.fail(sig, msg, rep)
     if r["accept"] != (r["status"] == "ACC"):
         ctx.fail("C11:accept-status-mismatch", f"accept={r['accept']} with status {r['status']}", rep)
     if not r["accept"]:
@@ -1833,13 +1851,20 @@ def _run(ctx, W):
     # ------------------------------------------------------------------ real TurtleMD engines, 2 particles (run-time part)
     from props import c11_turtle
     c11_turtle.run(ctx)
+    # ------------------------------------------------------------------ real in-process engines at the length limit, loaded paths
+    from props import c11_real
+    c11_real.run(ctx)
     ctx.exhaustive = False
     ctx.assumptions += [
         "order values, interfaces, energies are small integers (exact as floats); -inf is sent to the model as an integer below all values",
         "ScriptedEngine: frame 0 of a generated trajectory is the configuration handed to _propagate_from with the order value of the "
         "shooting point (velocity-independent order parameter); generated frames are flagged vel_rev = reverse (as every engine does)",
         "exp is outside the model: the model gets the float value np.exp returned; the harness checks the exponent exactly and the value against math.exp (rel 1e-14)",
-        "membership / swap-twice predicates are evaluated for maxlen0 ≤ maxlen1 (both come from the same tis_set dict in every configuration) and MD programs that do not end before maxlen",
+        "membership / swap-twice predicates are evaluated for maxlen0 ≤ maxlen1 (both come from the same tis_set dict in every configuration) and MD programs that do not end before maxlen "
+        "(scripted engines: by construction of the script; the real in-process engines TurtleMD / ASE: Infretis.C11.inproc_offers_maxlen + the frame count and "
+        "the length-limit sweep of harness/props/c11_real.py; external engines (GROMACS, LAMMPS, CP2K): C12's loop models)",
+        "quantis_swap_zero with the λ₋₁ variant is outside the QuanTIS theorems' intended domain (check_config forbids the combination, except that a λ₋₁ of 0.0 "
+        "slips through — pending finding, Infretis.C11.quantis_lm1_left_not_rejected_counterexample)",
         "`generated`, `time_origin`, `path_number` of the new paths are not compared",
         "object state / call history is a tie-only statement (the model is a pure function): long-lived engine objects (two objects, "
         "or one object serving both ensembles), long-lived ens_set dicts and reused scratch-file names are compared with fresh objects "
@@ -1847,8 +1872,8 @@ def _run(ctx, W):
         "order values are opaque data produced by the engine in the model (ZeroSwap frames); that the order value of a vel_rev frame is the "
         "order parameter of its physical phase point (EngineBase.calculate_order uses -v for vel_rev frames: C20's theorem on the sign, C12) "
         "is checked here at run time with a VelOrderEngine that routes every frame through the REAL calculate_order with the "
-        "velocity-dependent order parameter [2x+v, v]; swap_twice_identity is proved for an order function even in v, the "
-        "velocity-dependent case is covered by this run-time part only",
+        "velocity-dependent order parameter [2x+v, v]; swap_twice_identity is proved for an order function even in v, "
+        "swap_twice_identity_veldep for any order function of the physical phase point (model engine orbitV)",
         "old-path snapshot (C09 clause for zero swaps): per frame object identity, order list identity+contents, config, vel_rev, vpot, ekin, "
         "the content of the files the frames point to; per path status/generated/weights/weight/maxlen/path_number/time_origin — compared "
         "around EVERY call; plus the sequence rejected-swap → clean_up → second move vs the same second move on fresh copies",
@@ -1858,6 +1883,9 @@ def _run(ctx, W):
 def replay(ctx, obj):
     import ast
     r = obj.get("replay", {})
+    if "real" in r:
+        from props import c11_real
+        return c11_real.replay(ctx, r["real"])
     if "turtle" in r:
         # the real-engine block is regenerated from a fixed seed (its inputs are trajectories the engines produce)
         import random
